@@ -109,6 +109,8 @@ class FuncDep:
         if isinstance(e, ast.Constant):
             if isinstance(e.value, (int, float)) and not isinstance(e.value, bool):
                 return {f"const:{e.value}"}
+            if isinstance(e.value, str) and 0 < len(e.value) <= 40 and e.value.replace("_", "").isalnum():
+                return {f"str:{e.value}"}          # names passed as data (attribute ids, keys)
             return set()
         if isinstance(e, ast.Name):
             n = e.id
